@@ -22,7 +22,7 @@ const ID_LATE: u32 = 0x17;
 const ID_UNKNOWN: u32 = 0xDEAD;
 const ID_PROBE: u32 = 0x7777;
 
-pub const OPS: [&str; 12] = ["connect", "connect0", "ack0", "ack1", "ackbig", "reset", "finish", "push1", "pushburst", "bind1", "bind3", "datagram"];
+pub const OPS: [&str; 13] = ["connect", "connect0", "ack0", "ack1", "ackbig", "ackmax", "reset", "finish", "push1", "pushburst", "bind1", "bind3", "datagram"];
 pub const IDS: [(&str, u32); 7] = [("zero", 0), ("unknown", ID_UNKNOWN), ("stale", ID_STALE), ("target", ID_TARGET), ("halfclosed", ID_HALF), ("requested", ID_REQ), ("bindrequested", ID_BINDREQ)];
 pub const NSYM: u64 = (OPS.len() * IDS.len()) as u64;
 
@@ -45,6 +45,8 @@ fn sym_msgs(sym: u8, rwnd: u32) -> Vec<RawMsg> {
         "ack0" => vec![RawMsg::Ack { id, n: 0 }],
         "ack1" => vec![RawMsg::Ack { id, n: 1 }],
         "ackbig" => vec![RawMsg::Ack { id, n: 0x7fff_fff0 }],
+        // the largest value the field can carry: added to any non-zero credit it exceeds 32 bits
+        "ackmax" => vec![RawMsg::Ack { id, n: u32::MAX }],
         "reset" => vec![RawMsg::Reset { id }],
         "finish" => vec![RawMsg::Finish { id }],
         "push1" => vec![RawMsg::Push { id, len: 1 }],
@@ -387,7 +389,7 @@ pub fn run_invalid(c: &InvalidCase) -> Outcome {
 
 pub fn c10(ctx: &Ctx, rep: &mut Report) {
     rep.rule = "one real endpoint with two bystander streams in use, an established target flow (idle reader), a half-closed flow, a stale (closed) flow, a pending Connect and a pending Bind, against a harness-driven raw peer. \
-                The peer sends sequences over the alphabet {Connect (window 2 | 0), Acknowledge(0|1|big), Reset, Finish, Push(1 frame | window+1 burst), Bind(1|3), Datagram} x flow id in {0, unknown, stale, target, half-closed, requested, bind-requested} (84 symbols): ALL sequences up to length 2 (quick) / 3 (thorough) are enumerated with binds enabled and disabled, \
+                The peer sends sequences over the alphabet {Connect (window 2 | 0), Acknowledge(0|1|2^31-16|2^32-1), Reset, Finish, Push(1 frame | window+1 burst), Bind(1|3), Datagram} x flow id in {0, unknown, stale, target, half-closed, requested, bind-requested} (91 symbols): ALL sequences up to length 2 (quick) / 3 (thorough) are enumerated with binds enabled and disabled, \
                 random sequences up to length 30 interleaved with bystander traffic by a generated schedule. Oracle: a reference model of the slot table gives the Reset frames PROTOCOL.md requires per received frame (exact counts per flow id; tolerated either way only for Push after the peer's own Finish and overrun of a flow the endpoint already finished); \
                 the task never exits, a fresh Connect and a local open still work afterwards, bystanders complete with intact data. Second family: non-frame messages (bad version/opcode, short frames, bad bind type) must end the connection with InvalidFrame and resolve every pending operation, also when the peer stays silent. \
                 Non-trivial = the sequence touches a live (non-absent) slot state. Distinct = distinct case value."
